@@ -549,6 +549,47 @@ class ProgGen:
         return js
 
 
+def head0_program(rng, nq):
+    """Two subroutines run one after the other on the same application: the first only sets
+    registers; the second is a counted loop whose HEAD IS INSTRUCTION 0 (a backward branch to line 0,
+    which is taken), the head being a gate to be expanded (its Q register set by the first subroutine),
+    a `set`, or a classical instruction. Returns (sub1, sub2, features)."""
+    g = ProgGen(rng, nq)
+    g.prologue()
+    cnt, lim = 10, 13   # not used by nested statements of depth <= 1
+    g.emit("core.SetInstruction", reg(R, cnt), imm(0))
+    g.emit("core.SetInstruction", reg(R, lim), imm(rng.randrange(1, 4)))
+    g.emit("core.SetInstruction", reg(Q, 14), imm(rng.randrange(nq)))
+    sub1 = g.resolve()
+    g.items = []
+    top = g.new_label()
+    g.place(top)
+    kind = rng.choice(["g1", "rot", "stmt", "stmt", "cls"])
+    if kind == "g1":
+        g.emit(rng.choice(GATE1), reg(Q, 14))
+    elif kind == "rot":
+        g.emit(rng.choice(ROTS), reg(Q, 14), imm(rng.randrange(32)), imm(rng.randrange(5)))
+    elif kind == "cls":
+        g.emit("core.AddInstruction", reg(R, rng.randrange(6)), reg(R, rng.randrange(6)), reg(R, rng.randrange(3)))
+    else:
+        g.stmt(0)  # starts with a `set` (of a Q or R register): line 0 is a non-gate
+    for _ in range(rng.choice([0, 1, 2, 3])):
+        g.stmt(1)
+    g.emit("core.AddInstruction", reg(R, cnt), reg(R, cnt), reg(R, 14))
+    if rng.random() < 0.5:
+        g.emit("core.BltInstruction", reg(R, cnt), reg(R, lim), {"lab": top})
+    else:
+        end = g.new_label()
+        g.emit("core.BgeInstruction", reg(R, cnt), reg(R, lim), {"lab": end})
+        g.emit("core.JmpInstruction", {"lab": top})
+        g.place(end)
+    for _ in range(rng.choice([0, 0, 1])):
+        g.stmt(1)
+    sub2 = g.resolve()
+    g.features.add("target=0:" + kind)
+    return sub1, sub2, g.features
+
+
 def replace_loads_by_sets(js, load_sites):
     """the F10 delta: every `load Qr @0[R7]` becomes the equivalent `set Qr <id>` (same length)"""
     out = [dict(j) for j in js]
